@@ -74,7 +74,8 @@ structure Outcome where
   alias : List (Nat × Nat) := []
 
 def Outcome.ofErr (e : Err) : Outcome :=
-  if e == .panic then { status := "panic" } else { status := "error", err := some e }
+  if e == .panic then { status := "panic" } else if e == .unmodelled then { status := "unmodelled" }
+  else { status := "error", err := some e }
 
 def Outcome.json (o : Outcome) : Json :=
   let base : List (String × Json) := [("status", o.status)]
